@@ -127,6 +127,8 @@ def work(task):
   for ci in chunk_ids:
     chunk = chunks[ci]
     for position in POSITIONS:
+      # quick tier: the positions added in later rounds see every third chunk of the exhaustive strings and all the hand-picked ones (the last chunks)
+      if not thorough and POSITIONS.index(position) >= 7 and ci % 3 != 0 and ci < len(chunks) - 7: continue
       # one program per literal form index (all strings of the chunk that have that form)
       for fi in range(3):
         items = []; meta = []
